@@ -86,6 +86,19 @@ func NewSched(seed uint64, tape []int) *Sched {
 	return s
 }
 
+// Reseed restarts the choice streams (start of an independent sub-run): the
+// sub-run's schedule is then a function of seed alone. The tape, if any,
+// applies from its beginning.
+func (s *Sched) Reseed(seed uint64) {
+	s.mu.Lock()
+	s.rng = NewRand(Mix(seed, "sched"))
+	s.lockRng = NewRand(Mix(seed, "lock"))
+	s.tapePos = 0
+	s.Rec = nil
+	s.lastGid = 0
+	s.mu.Unlock()
+}
+
 // Uninstall removes the scheduler (yields become no-ops).
 func Uninstall() { cur.Store(nil) }
 
